@@ -51,15 +51,41 @@ fn selection_set_contains_type_name(
     selection_set: &[SelectionId],
     query: &Query,
 ) -> bool {
+    let mut visited_fragments = std::collections::BTreeSet::new();
+
+    selection_set_contains_type_name_inner(
+        parent_type_id,
+        selection_set,
+        query,
+        &mut visited_fragments,
+    )
+}
+
+fn selection_set_contains_type_name_inner(
+    parent_type_id: TypeId,
+    selection_set: &[SelectionId],
+    query: &Query,
+    visited_fragments: &mut std::collections::BTreeSet<super::ResolvedFragmentId>,
+) -> bool {
     for id in selection_set {
         let selection = query.get_selection(*id);
 
         match selection {
             Selection::Typename => return true,
             Selection::FragmentSpread(fragment_id) => {
+                // Fragments can spread each other in cycles: visit each of them only once.
+                if !visited_fragments.insert(*fragment_id) {
+                    continue;
+                }
+
                 let fragment = query.get_fragment(*fragment_id);
                 if fragment.on == parent_type_id
-                    && selection_set_contains_type_name(fragment.on, &fragment.selection_set, query)
+                    && selection_set_contains_type_name_inner(
+                        fragment.on,
+                        &fragment.selection_set,
+                        query,
+                        visited_fragments,
+                    )
                 {
                     return true;
                 }
